@@ -1,6 +1,8 @@
 SPECIFICATION Spec
 CONSTANTS Threads = {0, 1}
-          Programs = {"pA", "pB", "pC"}
+          Programs = {"pA", "pB", "pC", "pR"}
+          Envs = {"e1", "e2"}
           Broken = TRUE
+          Latched = FALSE
 INVARIANT Independent
 CHECK_DEADLOCK FALSE
